@@ -15,6 +15,7 @@ use crate::Ctx;
 pub struct P18 {
     pub max_clients: usize,
     pub hostile: bool,
+    pub all_pieces: bool,
 }
 
 fn describe_state(sim: &Sim) -> String {
@@ -89,6 +90,11 @@ impl HistoryProp for P18 {
                     } else if g.seq < 2 && !g.shut_wr {
                         v.push(Act::Send(c, Piece::Get));
                         v.push(Act::Send(c, Piece::Head));
+                        if self.all_pieces {
+                            for p in [Piece::Two, Piece::Put, Piece::Expect, Piece::GetExpect, Piece::Bad, Piece::Big] {
+                                v.push(Act::Send(c, p));
+                            }
+                        }
                     }
                     if self.hostile {
                         v.push(Act::Close(c));
@@ -107,6 +113,9 @@ impl HistoryProp for P18 {
         }
         for i in 0..sim.outstanding.len() {
             v.push(Act::Respond(i, Size::Small));
+            if self.all_pieces {
+                v.push(Act::Respond(i, Size::Large));
+            }
         }
         v
     }
@@ -193,13 +202,13 @@ fn differential(ctx: &mut Ctx, acts: &[Act]) -> Option<(String, String)> {
 pub fn run(ctx: &mut Ctx) {
     let quick = ctx.quick();
     // every prefix of every history up to the depth, well-behaved and hostile alphabets
-    let mut p = P18 { max_clients: 2, hostile: false };
+    let mut p = P18 { max_clients: 2, hostile: false, all_pieces: false };
     hist::dfs(ctx, &mut p, if quick { 8 } else { 10 }, 3, "C18", 8);
-    let mut p = P18 { max_clients: 2, hostile: true };
+    let mut p = P18 { max_clients: 2, hostile: true, all_pieces: false };
     hist::dfs(ctx, &mut p, if quick { 7 } else { 9 }, 3, "C18", 8);
     // random: C08-like histories of random length with 4 clients
     let n = ctx.budget(6_000, 300_000) / ctx.nshards;
-    let mut p = P18 { max_clients: 4, hostile: true };
+    let mut p = P18 { max_clients: 4, hostile: true, all_pieces: true };
     hist::random_histories(ctx, &mut p, n, 1, 60, "C18", &mut c08::choose);
     // capacity / full-batch states
     let mut rng = ctx.rng.fork(0xC18);
@@ -211,7 +220,7 @@ pub fn run(ctx: &mut Ctx) {
         if ctx.rep.samples.len() < 3 && i % 30 == 2 {
             ctx.rep.sample(hist::history_json(&acts, vec![]));
         }
-        let mut p = P18 { max_clients: 13, hostile: true };
+        let mut p = P18 { max_clients: 13, hostile: true, all_pieces: true };
         let out = hist::run_history(ctx, &mut p, &acts, true, false);
         if let Some((k, d)) = out.violation {
             ctx.rep.violation(&format!("C18:{}", k), d, hist::history_json(&acts, vec![]));
@@ -274,6 +283,6 @@ pub fn replay(ctx: &mut Ctx, case: &J) {
         }
         return;
     }
-    let mut p = P18 { max_clients: 13, hostile: true };
+    let mut p = P18 { max_clients: 13, hostile: true, all_pieces: true };
     hist::replay_history(ctx, &mut p, case, "C18");
 }
